@@ -9,9 +9,9 @@ Definition frows (a : arch) : list (format * Z) :=
   | GCN3 => [(F_VOP2, 1); (F_VOP2, 2); (F_VOP2, 3); (F_VOP2, 5); (F_VOP2, 22); (F_VOP2, 24); (F_VOP1, 5); (F_VOP1, 6);
              (F_VOPC, 65); (F_VOPC, 66); (F_VOPC, 67); (F_VOPC, 68); (F_VOPC, 69); (F_VOPC, 70);
              (F_VOPC, 73); (F_VOPC, 74); (F_VOPC, 75); (F_VOPC, 76); (F_VOPC, 77); (F_VOPC, 78);
-             (F_VOP3A, 65); (F_VOP3A, 68); (F_VOP3A, 78); (F_VOP3A, 258); (F_VOP3A, 449)]
+             (F_VOP3A, 65); (F_VOP3A, 68); (F_VOP3A, 77); (F_VOP3A, 78); (F_VOP3A, 258); (F_VOP3A, 449)]
   | CDNA3 => [(F_VOP2, 1); (F_VOP2, 2); (F_VOP2, 3); (F_VOP2, 5); (F_VOP1, 5); (F_VOP1, 6);
-              (F_VOPC, 65); (F_VOPC, 66); (F_VOPC, 67); (F_VOPC, 68); (F_VOPC, 69); (F_VOPC, 70);
+              (F_VOPC, 65); (F_VOPC, 66); (F_VOPC, 67); (F_VOPC, 68); (F_VOPC, 69); (F_VOPC, 70); (F_VOPC, 75); (F_VOPC, 78);
               (F_VOP3A, 65); (F_VOP3A, 67); (F_VOP3A, 68); (F_VOP3A, 70); (F_VOP3A, 78);
               (F_VOP3A, 258); (F_VOP3A, 261); (F_VOP3A, 449)]
   end.
@@ -60,12 +60,13 @@ Proof.
   - row_case (r_g_vopc_f 68 ltac:(inl)). - row_case (r_g_vopc_f 69 ltac:(inl)). - row_case (r_g_vopc_f 70 ltac:(inl)).
   - row_case (r_g_vopc_f 73 ltac:(inl)). - row_case (r_g_vopc_f 74 ltac:(inl)). - row_case (r_g_vopc_f 75 ltac:(inl)).
   - row_case (r_g_vopc_f 76 ltac:(inl)). - row_case (r_g_vopc_f 77 ltac:(inl)). - row_case (r_g_vopc_f 78 ltac:(inl)).
-  - row_case (r_g_vop3a_f 65 ltac:(inl)). - row_case (r_g_vop3a_f 68 ltac:(inl)). - row_case (r_g_vop3a_f 78 ltac:(inl)).
+  - row_case (r_g_vop3a_f 65 ltac:(inl)). - row_case (r_g_vop3a_f 68 ltac:(inl)). - row_case (r_g_vop3a_f 77 ltac:(inl)). - row_case (r_g_vop3a_f 78 ltac:(inl)).
   - row_case (r_x_vop3a_258 GCN3). - row_case (r_x_vop3a_449 GCN3).
   - row_case (r_x_vop2_1 CDNA3). - row_case (r_x_vop2_2 CDNA3). - row_case (r_x_vop2_3 CDNA3).
   - row_case (r_x_vop2_5 CDNA3). - row_case (r_x_vop1_5 CDNA3). - row_case (r_x_vop1_6 CDNA3).
   - row_case (r_c_vopc_f 65 ltac:(inl)). - row_case (r_c_vopc_f 66 ltac:(inl)). - row_case (r_c_vopc_f 67 ltac:(inl)).
   - row_case (r_c_vopc_f 68 ltac:(inl)). - row_case (r_c_vopc_f 69 ltac:(inl)). - row_case (r_c_vopc_f 70 ltac:(inl)).
+  - row_case (r_c_vopc_f 75 ltac:(inl)). - row_case (r_c_vopc_f 78 ltac:(inl)).
   - row_case (r_c_vop3a_f 65 ltac:(inl)). - row_case (r_c_vop3a_f 67 ltac:(inl)). - row_case (r_c_vop3a_f 68 ltac:(inl)).
   - row_case (r_c_vop3a_f 70 ltac:(inl)). - row_case (r_c_vop3a_f 78 ltac:(inl)).
   - row_case (r_x_vop3a_258 CDNA3). - row_case r_c_vop3a_261. - row_case (r_x_vop3a_449 CDNA3).
